@@ -4,8 +4,9 @@
    [reachable s]: s is produced from the first Start (ANY duplicate-free set of listen addresses,
    ANY set of addresses occupied by foreign sockets) by ANY finite sequence of atomic steps of
    the model in C07_Model.v: any number of Restart calls with any configurations (any listen
-   addresses kept, dropped, added; valid, failing while loading, failing at listen time), each
-   progressing through dup / bind / spawn / stop exactly in the order of the code, interleaved
+   addresses kept, dropped, added; valid, failing while loading, failing in a startup callback,
+   failing at listen time), each progressing through load / startup callbacks / dup / bind /
+   spawn / stop (cleanly or with a drain timeout) exactly in the order of the code, interleaved
    arbitrarily with any number of clients connecting, being accepted, answered and served.
 
    [owner s] is the instance whose service is guaranteed in s: the instance in force ([cur]),
@@ -33,7 +34,7 @@ Proof. exact owner_serves. Qed.
 Print Assumptions C07_always_an_acceptor.
 
 Example C07_always_an_acceptor_nonvacuous :
-  match run (init [0; 1] [9]) [LCall [1; 0] 0; LLoadOk; LDup; LDup; LAdv; LSpawn; LSpawn; LAdv; LStop] with
+  match run (init [0; 1] [9]) [LCall [1; 0] 0; LLoadOk; LCbOk; LDup; LDup; LAdv; LSpawn; LSpawn; LAdv; LStop] with
   | Some s => owner s = 1 /\ addrs_of s (owner s) = [1; 0] /\ fdh s 0 = [1] /\ acc s 0 = [1] /\
               fdh s 1 = [1; 0] /\ acc s 1 = [1; 0]
   | None => False
@@ -121,7 +122,7 @@ Proof. exact return_installs_new. Qed.
 Print Assumptions C07_return_installs_new.
 
 Example C07_return_installs_new_nonvacuous :
-  match run (init [0] []) [LNew 0 0; LCall [0] 0; LLoadOk; LDup; LAdv; LSpawn; LAdv; LStop; LReturn;
+  match run (init [0] []) [LNew 0 0; LCall [0] 0; LLoadOk; LCbOk; LDup; LAdv; LSpawn; LAdv; LStop; LReturn;
                            LNew 0 1; LConnect 1; LAccept 1 1; LConnect 0; LAccept 0 1] with
   | Some s => cur s = 1 /\ map cborn (conns s) = [0; 1] /\ map cst (conns s) = [CAccepted 1; CAccepted 1]
   | None => False
@@ -136,23 +137,170 @@ Theorem C07_only_live_instances_accept :
 Proof. exact only_live_instances_accept. Qed.
 Print Assumptions C07_only_live_instances_accept.
 
-(* If a reload fails (while loading or at listen time) the previous instance keeps everything:
-   same sockets, same descriptors, same acceptors, for all of its addresses; connections are
-   untouched and it is the only one accepting. *)
+(* If a reload fails — while loading, in a startup callback of the new instance n, or at listen
+   time — the previous instance keeps everything: same sockets, its descriptors, its acceptors, for
+   all of its addresses; it is the only one accepting; and NOTHING of the rejected instance is
+   left: every descriptor is the old instance's (when a Listen failed, startServers has closed the
+   descriptors n had got: [fdh s' a = rem n (fdh s a)]).  Connections to the old configuration's
+   addresses are untouched (the only connections that change are those queued at a socket the
+   rejected instance had bound itself, which disappears with it). *)
 Theorem C07_failed_reload_keeps_old :
-  forall s l s', reachable s -> (l = LLoadFail \/ l = LListenFail) -> step s l = Some s' ->
-  cur s' = cur s /\ rst s' = RIdle /\ conns s' = conns s /\ cfgs s' = cfgs s /\
-  (forall a, sid s' a = sid s a /\ fdh s' a = fdh s a /\ acc s' a = acc s a) /\
+  forall s l s', reachable s -> (l = LLoadFail \/ l = LCbFail \/ l = LListenFail) -> step s l = Some s' ->
+  exists n, pending s = Some n /\
+  cur s' = cur s /\ rst s' = RIdle /\ cfgs s' = cfgs s /\
+  (forall a, sid s' a = sid s a /\ acc s' a = acc s a /\ fdh s' a = rem n (fdh s a)) /\
+  (l <> LListenFail -> conns s' = conns s /\ forall a, fdh s' a = fdh s a) /\
+  (forall k c, nth_error (conns s) k = Some c -> In (caddr c) (addrs_of s (cur s)) ->
+               nth_error (conns s') k = Some c) /\
+  (forall a i, In i (fdh s' a) -> i = cur s' /\ In a (addrs_of s' (cur s'))) /\
   (forall a, In a (addrs_of s' (cur s')) -> In (cur s') (fdh s' a) /\ In (cur s') (acc s' a)) /\
   (forall a i, In i (acc s' a) -> i = cur s').
 Proof. exact failed_reload_keeps_old. Qed.
 Print Assumptions C07_failed_reload_keeps_old.
 
 Example C07_failed_reload_keeps_old_nonvacuous :
-  match run (init [0; 1] [9]) [LCall [0; 1; 9] 2; LLoadOk; LDup; LDup; LListenFail] with
-  | Some s => cur s = 0 /\ rst s = RIdle /\ fdh s 0 = [1; 0] /\ acc s 0 = [0] /\ hist s = [ERet 2; ECall [0; 1; 9] 2]
+  (* the descriptors dup'ed for 0 and 1 and the socket bound at 5 are closed again when 9 cannot be bound *)
+  match run (init [0; 1] [9]) [LCall [0; 5; 1; 9] 2; LLoadOk; LCbOk; LDup; LBind; LDup] with
+  | Some s1 =>
+      fdh s1 0 = [1; 0] /\ fdh s1 5 = [1] /\
+      match run s1 [LNew 5 0; LConnect 0; LListenFail] with
+      | Some s => cur s = 0 /\ rst s = RIdle /\ fdh s 0 = [0] /\ fdh s 1 = [0] /\ fdh s 5 = [] /\ acc s 0 = [0] /\
+                  map cst (conns s) = [CReset] /\
+                  hist s = [ERet 2; EStart 0 5 0; ECall [0; 5; 1; 9] 2]
+      | None => False
+      end
   | None => False
   end.
+Proof. vm_compute. repeat split; reflexivity. Qed.
+
+(* ---- nothing leaks ---- *)
+(* in every reachable state every descriptor of a listening socket is held by the instance in
+   force, for an address of its configuration, or by the instance being started, for an address
+   of its configuration: failed reloads leave none behind, replaced instances keep none *)
+Theorem C07_no_descriptor_leak :
+  forall s a i, reachable s -> In i (fdh s a) ->
+  (i = cur s /\ In a (addrs_of s (cur s))) \/ (pending s = Some i /\ In a (addrs_of s i)).
+Proof. exact no_descriptor_leak. Qed.
+Print Assumptions C07_no_descriptor_leak.
+
+(* ... in numbers: whenever no reload is in progress the process holds exactly ONE descriptor of
+   the listening socket of every served address, the serving instance's, and none of any other
+   address (what [EFds] events report of the real process is compared with this count) *)
+Theorem C07_one_descriptor_when_idle :
+  forall s a, reachable s -> rst s = RIdle ->
+  fdh s a = if mem a (addrs_of s (cur s)) then [cur s] else [].
+Proof. exact one_descriptor_when_idle. Qed.
+Print Assumptions C07_one_descriptor_when_idle.
+
+Example C07_one_descriptor_when_idle_nonvacuous :
+  match run (init [0; 1] [9]) [LCall [0; 5; 1; 9] 2; LLoadOk; LCbOk; LDup; LBind; LDup; LFds 0; LFds 5; LListenFail; LFds 0; LFds 5;
+                               LCall [1; 0] 0; LLoadOk; LCbOk; LDup; LDup; LAdv; LSpawn; LSpawn; LAdv; LStop; LStop; LReturn; LFds 0; LFds 1] with
+  | Some s => rst s = RIdle /\
+              filter (fun e => match e with EFds _ _ => true | _ => false end) (rev (hist s)) =
+              [EFds 0 2; EFds 5 1; EFds 0 1; EFds 5 0; EFds 0 1; EFds 1 1]
+  | None => False
+  end.
+Proof. vm_compute. split; reflexivity. Qed.
+
+(* ---- the rejected configuration never accepts ---- *)
+(* an instance whose configuration is not valid (fate 1, 2 or 3) never has an acceptor, in any
+   reachable state — during its reload or at any later time *)
+Theorem C07_failed_never_accepts :
+  forall s i a, reachable s -> fate_of s i <> 0 -> ~ In i (acc s a).
+Proof. exact failed_never_accepts. Qed.
+Print Assumptions C07_failed_never_accepts.
+
+(* while the configuration of the new instance n is loaded and while its startup callbacks run,
+   n holds no descriptor, has no acceptor and has taken no connection: the startup callbacks run
+   BEFORE startServers obtains the listeners and starts the acceptors *)
+Theorem C07_not_listening_before_callbacks_done :
+  forall s n, reachable s -> (rst s = RLoad n \/ rst s = RCb n) ->
+  (forall a, ~ In n (fdh s a)) /\ (forall a, ~ In n (acc s a)) /\
+  (forall k c, nth_error (conns s) k = Some c -> accepted_by (cst c) <> Some n).
+Proof. exact not_listening_before_callbacks_done. Qed.
+Print Assumptions C07_not_listening_before_callbacks_done.
+
+(* a startup callback of the new instance fails: Restart returns an error, the state is exactly
+   what it was before the call (sockets, descriptors, acceptors, connections), the old instance
+   serves all of its addresses, and the rejected instance has not accepted anything and never
+   will, whatever happens afterwards *)
+Theorem C07_failed_startup_callback_keeps_old :
+  forall s s', reachable s -> step s LCbFail = Some s' ->
+  exists n, rst s = RCb n /\ fate_of s n = 3 /\ hist s' = ERet 1 :: hist s /\
+    cur s' = cur s /\ rst s' = RIdle /\ conns s' = conns s /\ cfgs s' = cfgs s /\
+    (forall a, sid s' a = sid s a /\ fdh s' a = fdh s a /\ acc s' a = acc s a) /\
+    (forall a, ~ In n (fdh s' a) /\ ~ In n (acc s' a)) /\
+    (forall k c, nth_error (conns s') k = Some c -> accepted_by (cst c) <> Some n) /\
+    (forall a, In a (addrs_of s' (cur s')) -> In (cur s') (fdh s' a) /\ In (cur s') (acc s' a)) /\
+    (forall ls s'', run s' ls = Some s'' -> forall a, ~ In n (acc s'' a)).
+Proof. exact failed_startup_callback_keeps_old. Qed.
+Print Assumptions C07_failed_startup_callback_keeps_old.
+
+Example C07_failed_startup_callback_keeps_old_nonvacuous :
+  match run (init [0; 1] []) [LNew 0 0; LCall [0; 1] 3; LLoadOk; LConnect 0; LCbFail; LAccept 0 0; LAnswer 0; LRecv 0] with
+  | Some s => cur s = 0 /\ fdh s 0 = [0] /\ acc s 1 = [0] /\
+              rev (hist s) = [EStart 0 0 0; ECall [0; 1] 3; ERet 1; EEnd 0 (Some (0, 0, true))]
+  | None => False
+  end /\
+  (* the callbacks cannot be skipped, and a configuration whose callback fails gets no listener *)
+  run (init [0] []) [LCall [0] 3; LLoadOk; LCbOk] = None /\
+  run (init [0] []) [LCall [0] 0; LLoadOk; LDup] = None.
+Proof. vm_compute. repeat split; reflexivity. Qed.
+
+(* ---- drain timeouts ---- *)
+(* once the acceptors of the new instance have been spawned the reload cannot fail any more:
+   the only way out of the spawn / stop-old phases is the successful return *)
+Theorem C07_no_failure_after_spawn :
+  forall s l s', spawning s -> step s l = Some s' ->
+  spawning s' \/ (l = LReturn /\ hist s' = ERet 0 :: hist s /\ rst s' = RIdle).
+Proof. exact no_failure_after_spawn. Qed.
+Print Assumptions C07_no_failure_after_spawn.
+
+(* the stop-old phase can always be carried through, whatever connections the old instance holds *)
+Theorem C07_stop_phase_completes :
+  forall todo s n, reachable s -> rst s = RStop n todo ->
+  exists s', run s (map (fun _ => LStop) todo ++ [LReturn]) = Some s' /\
+             cur s' = n /\ rst s' = RIdle /\ hist s' = ERet 0 :: hist s /\
+             (forall a i, In i (acc s' a) -> i = n) /\
+             (forall a, In a (addrs_of s' n) -> In n (fdh s' a) /\ In n (acc s' a)).
+Proof. exact stop_phase_completes. Qed.
+Print Assumptions C07_stop_phase_completes.
+
+(* a connection of the old server at address a outlives the graceful timeout ([LStopTimeout]):
+   the shutdown does to the socket exactly what a clean one does (descriptor closed, acceptor
+   stopped), the error is only logged ([EDrain a]) and the REMAINING old servers are stopped; the
+   connections an instance holds stay with it; the reload is carried through to a successful
+   return, after which the new instance serves all of its addresses and only it accepts *)
+Theorem C07_drain_timeout_reload_succeeds :
+  forall s s1, reachable s -> step s LStopTimeout = Some s1 ->
+  exists n a t,
+    rst s = RStop n (a :: t) /\ rst s1 = RStop n t /\ hist s1 = EDrain a :: hist s /\
+    step s LStop = Some (with_rst (stop_old s a) (RStop n t)) /\
+    s1 = with_hist (with_rst (stop_old s a) (RStop n t)) (EDrain a) /\
+    (forall k c i, nth_error (conns s) k = Some c -> accepted_by (cst c) = Some i ->
+       exists c', nth_error (conns s1) k = Some c' /\ accepted_by (cst c') = Some i /\ caddr c' = caddr c /\ csite c' = csite c) /\
+    exists s', run s1 (map (fun _ => LStop) t ++ [LReturn]) = Some s' /\
+               cur s' = n /\ rst s' = RIdle /\ hist s' = ERet 0 :: hist s1 /\
+               (forall b i, In i (acc s' b) -> i = n) /\
+               (forall b, In b (addrs_of s' n) -> In n (fdh s' b) /\ In n (acc s' b)).
+Proof. exact drain_timeout_reload_succeeds. Qed.
+Print Assumptions C07_drain_timeout_reload_succeeds.
+
+Example C07_drain_timeout_nonvacuous :
+  (* a request held open on the old instance at address 0 while it is replaced: the drain times
+     out there, address 1 is stopped all the same, the reload returns ok; the held request is
+     answered by the OLD configuration afterwards, a request started after the return by the NEW *)
+  match run (init [0; 1] [])
+            [LNew 0 0; LConnect 0; LAccept 0 0; LCall [0; 1] 0; LLoadOk; LCbOk; LDup; LDup; LAdv; LSpawn; LSpawn; LAdv;
+             LStopTimeout; LStop; LReturn; LNew 0 0; LConnect 1; LAccept 1 1; LAnswer 1; LRecv 1; LAnswer 0; LRecv 0] with
+  | Some s => cur s = 1 /\ fdh s 0 = [1] /\ acc s 0 = [1] /\ fdh s 1 = [1] /\ acc s 1 = [1] /\
+      rev (hist s) = [EStart 0 0 0; ECall [0; 1] 0; EDrain 0; ERet 0; EStart 1 0 0;
+                      EEnd 1 (Some (1, 0, true)); EEnd 0 (Some (0, 0, true))] /\
+      accepts [0; 1] [] (rev (hist s)) = true
+  | None => False
+  end /\
+  (* no timeout without a connection held by the old server there *)
+  run (init [0] []) [LCall [0] 0; LLoadOk; LCbOk; LDup; LAdv; LSpawn; LAdv; LStopTimeout] = None.
 Proof. vm_compute. repeat split; reflexivity. Qed.
 
 (* The property as observed from outside.  [spec_trace] is the executable statement evaluated by
@@ -173,10 +321,10 @@ Print Assumptions C07_model_histories_satisfy_spec.
 
 Example C07_model_histories_satisfy_spec_nonvacuous :
   match run (init [0; 1] [9])
-            [LObs 0; LNew 0 1; LConnect 0; LCall [1; 0] 0; LLoadOk; LDup; LDup; LAdv; LSpawn; LSpawn;
+            [LObs 0; LNew 0 1; LConnect 0; LCall [1; 0] 0; LLoadOk; LCbOk; LDup; LDup; LAdv; LSpawn; LSpawn;
              LNew 1 0; LConnect 1; LAccept 1 0; LAccept 0 1; LAdv; LStop; LStop; LReturn; LObs 1;
              LNew 0 0; LConnect 2; LAccept 2 1; LAnswer 1; LRecv 1; LAnswer 0; LAnswer 2; LRecv 2; LRecv 0;
-             LCall [0; 1; 9] 2; LLoadOk; LDup; LDup; LListenFail; LNew 1 1; LConnect 3; LAccept 3 1; LAnswer 3; LRecv 3] with
+             LCall [0; 1; 9] 2; LLoadOk; LCbOk; LDup; LDup; LListenFail; LNew 1 1; LConnect 3; LAccept 3 1; LAnswer 3; LRecv 3] with
   | Some s => rev (hist s) =
       [EObs 0 true 0; EStart 0 0 1; ECall [1; 0] 0; EStart 1 1 0; ERet 0; EObs 1 true 0; EStart 2 0 0;
        EEnd 1 (Some (0, 0, true)); EEnd 2 (Some (1, 0, true)); EEnd 0 (Some (1, 1, true));
@@ -200,7 +348,16 @@ Example C07_spec_rejects :
   spec_trace [0] [ECall [0] 1; EStart 0 0 0; ERet 1; EEnd 0 (Some (1, 0, true))] = false /\
   spec_trace [0] [ECall [0] 1; EStart 0 0 0; ERet 1; EEnd 0 (Some (0, 0, true))] = true /\
   spec_trace [0] [EObs 0 true 0; ECall [0] 0; EObs 0 false 0; ERet 0] = false /\
-  spec_trace [0] [EObs 0 true 0; ECall [0] 0; ERet 0; EObs 0 true 1] = false.
+  spec_trace [0] [EObs 0 true 0; ECall [0] 0; ERet 0; EObs 0 true 1] = false /\
+  (* a drain timeout makes no difference to what the reload must return and to who answers; a
+     reload whose startup callback fails must return an error and never answer *)
+  spec_trace [0] [EStart 0 0 0; ECall [0] 0; EDrain 0; ERet 1] = false /\
+  spec_trace [0] [EStart 0 0 0; ECall [0] 0; EDrain 0; ERet 0; EStart 1 0 0; EEnd 1 (Some (0, 0, true))] = false /\
+  spec_trace [0] [EStart 0 0 0; ECall [0] 0; EDrain 0; ERet 0; EEnd 0 (Some (0, 0, true))] = true /\
+  spec_trace [0] [EDrain 0] = false /\
+  spec_trace [0] [ECall [0] 3; ERet 0] = false /\
+  spec_trace [0] [ECall [0] 3; ERet 1; EStart 0 0 0; EEnd 0 (Some (1, 0, true))] = false /\
+  spec_trace [0] [ECall [0] 3; ERet 1; EStart 0 0 0; EEnd 0 (Some (0, 0, true))] = true.
 Proof. vm_compute. repeat split; reflexivity. Qed.
 
 (* The judge's acceptance check is sound: when it says that the model accepts an observed
